@@ -64,13 +64,19 @@ impl EPipe {
         let digit_names = g.tape.chance(1, 6);
         // names that differ only in letter case
         let case_names = !digit_names && g.tape.chance(1, 8);
+        // titles that differ only in blanks at their end (a title is taken as written)
+        let blank_names = !digit_names && !case_names && g.tape.chance(1, 8);
         for i in 0..ns {
             let k = *g.tape.pick(LEAF_KINDS);
             let e = g.expr(k, depth, &env);
             // digits that are not the position of the selection
-            let name = if digit_names { format!("{}", (i + 1) % (max_sel + 1)) } else if case_names { ["k", "K", "kk", "KK", "Kk"][i % 5].to_string() } else { format!("s{}", i) };
+            let name = if digit_names { format!("{}", (i + 1) % (max_sel + 1)) } else if case_names { ["k", "K", "kk", "KK", "Kk"][i % 5].to_string() } else if blank_names { ["t", "t ", "t  ", "t t", "t\t"][i % 5].to_string() } else { format!("s{}", i) };
             selects.push((e, name.clone()));
-            env.sels.push((name, k));
+            // a /name/ reference cannot spell a title with blanks in it: such selections are
+            // printed but never referred to
+            if !name.contains(|c: char| c.is_whitespace()) {
+                env.sels.push((name, k));
+            }
         }
         (EPipe { sets, split, filter, selects }, env)
     }
